@@ -78,6 +78,10 @@ def rstmt(rnd, infn=False, fnames=('ff',), ops=OPS):
     if r < 0.93:
         return {'k': 'return', 'hasE': False, 'e': A.NULLVAR}
     if infn:
+        if rnd.random() < 0.3:
+            # a function statement inside a function body (only hand-built models have one): it binds the GLOBAL name all the same
+            return {'k': 'function', 'name': rnd.choice(['gg', 'hh']), 'args': [], 'last': False,
+                    'body': [{'k': 'return', 'hasE': True, 'e': num(rnd.randint(20, 29))}]}
         return {'k': 'label', 'v': 'L1'}
     nargs = rnd.randint(0, 3)
     args = rnd.sample(['a', 'p', 'q'], nargs)
